@@ -504,6 +504,36 @@ def atoms_text():
     emit("rb_raw_len", [(x, N) for x in rbp], N, lambda: (R.inline_lets(R.vec_len_expr(b, "raw_data"), b, rbp, consts=brs)))
     emit("rb_inflate_buf", [(x, N) for x in rbp], N, lambda: (R.inline_lets(R.vec_len_expr(b, "outbuf"), b, rbp, consts=brs)))
     emit("rb_compressed", [(x, N) for x in rbp], B, lambda: (R.inline_lets(R.cond_over(b, {"uncompress_buf_size"}), b, rbp, consts=brs)))
+    # --- fixed-width decoders written out byte by byte: which bytes of an item each field is assembled from -----------------------
+    def byte_fields(text):
+        out_ = []
+        for mf in re.finditer(r"let\s+(\w+)\s*=\s*(?:u32|u64|f32)::from_(le|be)_bytes\(\[((?:[^\[\]]|\[[^\]]*\])*)\]\)", text):
+            idx = re.findall(r"\[\s*(\d+)\s*\]", mf.group(3))
+            if not idx or len(idx) != len([x for x in mf.group(3).split(",") if x.strip()]):
+                raise R.Unsupported("byte list of " + mf.group(1) + " is not a list of constant indexes")
+            out_.append((mf.group(1), mf.group(2), [int(x) for x in idx]))
+        if not out_:
+            raise R.Unsupported("no from_le_bytes / from_be_bytes list found")
+        return out_
+
+    def emit_fields(name, doc, text):
+        fl_ = byte_fields(text)
+        out.append(f"/-- {doc}: (field, byte order arm, indexes of the item's bytes, in the order handed to `from_*_bytes`) -/\n"
+                   f"def {name} : List (String × String × List Nat) :=\n  [" +
+                   ", ".join(f'("{n_}", "{e_}", [{", ".join(map(str, ix))}])' for n_, e_, ix in fl_) + "]")
+    brs2 = re.sub(r"//[^\n]*", "", read("bigtools/src/bbi/bbiread.rs"))
+    for nm, ty, doc in (("bf_leaf", "CirTreeLeafItemIterator", "leaf items of an index node (32 bytes each)"),
+                        ("bf_nonleaf", "CirTreeNonLeafItemsIterator", "non-leaf items of an index node (24 bytes each)")):
+        pos = brs2.find("impl Iterator for " + ty)
+        if pos < 0:
+            raise R.Unsupported("impl Iterator for " + ty + " not found")
+        emit_fields(nm, doc, R.find_fn(brs2[pos:], "next"))
+    bwr = re.sub(r"//[^\n]*", "", read("bigtools/src/bbi/bigwigread.rs"))
+    gbv = R.find_fn(bwr, "get_block_values")
+    a1, a2 = gbv.find("1 => {"), gbv.find("2 => {")
+    if a1 < 0 or a2 < a1:
+        raise R.Unsupported("get_block_values: the arm of section type 1 not found")
+    emit_fields("bf_bedgraph_item", "items of a bedGraph (type 1) section (12 bytes each)", gbv[a1:a2])
     # --- the staging buffer's reported length: TempFileBuffer::len in tempfilebuffer.rs ----------------------------------------
     b = region(read("bigtools/src/utils/file/tempfilebuffer.rs"), "len")
 
